@@ -165,7 +165,7 @@ fn apply_real(b: B, c: Call) -> Result<B, GgrsError> {
 
 /// Runs one sequence followed by one start call (0 p2p, 1 spectator, 2 synctest).
 /// Returns Err(description) on a disagreement with the model or a panic.
-fn run_sequence(seq: &[Call], start: u8) -> Result<(bool, u64), (String, String)> {
+pub fn run_sequence(seq: &[Call], start: u8) -> Result<(bool, u64), (String, String)> {
     ggrs::verif_hooks::reset(1_000_000, 7, 1);
     let mut model = Model::new();
     let mut b = B::new();
